@@ -206,6 +206,19 @@ def write_replay(prop, seed, tier, kind, payload):
     return os.path.relpath(path, ROOT)
 
 
+def run_prebuild(spec):
+    """Per-property extra build steps (race test binary, synctest harness). Returns the failed ones."""
+    failed = []
+    for pb in spec.get("prebuild", []):
+        cwd = pb.get("cwd", ROOT).format(root=ROOT, repo=REPO)
+        for cp_src, cp_dst in pb.get("copy", []):
+            shutil.copyfile(cp_src.format(root=ROOT, repo=REPO), cp_dst.format(root=ROOT, repo=REPO))
+        rc, out = sh([c.format(bin=BIN, root=ROOT, repo=REPO) for c in pb["cmd"]], cwd=cwd, env=dict(GOENV, **pb.get("env", {})), timeout=1800)
+        if rc != 0:
+            failed.append(("prebuild " + " ".join(pb["cmd"][:3]), out[-3000:]))
+    return failed
+
+
 def check(prop, tier, seed):
     t_start = time.time()
     spec = PROPS[prop]
@@ -231,14 +244,9 @@ def check(prop, tier, seed):
         if not ok_h:
             # the harness only uses exported API; if it no longer builds the tree changed its API
             broken.append(("harness build against /repo", out_h[-3000:]))
-        for pb in spec.get("prebuild", []):
-            cwd = pb.get("cwd", ROOT).format(root=ROOT, repo=REPO)
-            for cp_src, cp_dst in pb.get("copy", []):
-                shutil.copyfile(cp_src.format(root=ROOT, repo=REPO), cp_dst.format(root=ROOT, repo=REPO))
-            rc, out = sh([c.format(bin=BIN, root=ROOT, repo=REPO) for c in pb["cmd"]], cwd=cwd, env=dict(GOENV, **pb.get("env", {})), timeout=1800)
-            if rc != 0:
-                ok_h = False
-                broken.append(("prebuild " + " ".join(pb["cmd"][:3]), out[-3000:]))
+        for name, out in run_prebuild(spec):
+            ok_h = False
+            broken.append((name, out))
         axioms, forbidden, audit_err = ({}, [], "")
         if ok_proofs:
             axioms, forbidden, audit_err = audit(prop)
@@ -400,6 +408,8 @@ def replay(path):
         return check(prop, tier, seed)
     with Lock("build"):
         build_extractor(); run_extractor(); lake_build(["tdxmodel"]); ok, out = build_harness()
+        for name, o in run_prebuild(PROPS[prop]):
+            ok, out = False, name + "\n" + o
     if not ok:
         print(out); return 2
     outdir = os.path.join(WORK, f"{prop}-replay")
